@@ -15,6 +15,21 @@ def run_one(patch, pids):
         if r.returncode != 0:
             return {"patch": os.path.relpath(patch, V), "applied": False, "detail": r.stdout[-300:]}
         out = {"patch": os.path.relpath(patch, V), "applied": True, "checks": {}}
+        if len(pids) > 1:
+            # all properties in one process: facts, supergraphs and reachability memos are shared
+            env = dict(os.environ, VERIF_REPO=d, VERIF_EVIDENCE_DIR=os.path.join(d, ".evidence"))
+            t0 = time.time()
+            r = subprocess.run([sys.executable, "-m", "va.checkall"] + list(pids), cwd=V, env=env, stdout=subprocess.PIPE, stderr=subprocess.STDOUT, text=True)
+            parts = re.split(r"^@@ (C\d\d) (\d+)$", r.stdout, flags=re.M)
+            for i in range(1, len(parts) - 2, 3):
+                pid, rc, txt = parts[i], int(parts[i + 1]), parts[i + 2]
+                keys = re.findall(r"^  rule (\S+) key (.+)$", txt, re.M)
+                out["checks"][pid] = {"exit": rc, "violations": [list(k) for k in keys][:6], "inconclusive": len(re.findall(r"^INCONCLUSIVE", txt, re.M)),
+                                      "build_failed": "error: could not compile" in r.stdout or "error[E" in r.stdout, "wall_s": round(time.time() - t0, 1)}
+            for pid in pids:
+                if pid not in out["checks"]:
+                    out["checks"][pid] = {"exit": 2, "violations": [], "inconclusive": 1, "build_failed": "error: could not compile" in r.stdout, "wall_s": 0, "note": "no output"}
+            return out
         for pid in pids:
             env = dict(os.environ, VERIF_REPO=d, VERIF_EVIDENCE_DIR=os.path.join(d, ".evidence"))
             t0 = time.time()
